@@ -25,6 +25,7 @@ def handlers : List (String × (Json → Except String Json)) := [
   ("C14.pmap", Qv.Drv.C14.pmap),
   ("C14.serial", Qv.Drv.C14.serial),
   ("C15.history", Qv.Drv.C15.history),
+  ("C15.dict_merge", Qv.Drv.C15.dictMergeJ),
   ("C11.prop", Qv.Drv.C11.prop),
   ("C11.options", Qv.Drv.C11.optionsJ),
   ("C03.overclaims", Qv.Drv.C03.overclaimsJ),
